@@ -87,6 +87,13 @@ impl Property for C06 {
         // now and then an input called `<b>_out` next to the bidirectional `<b>`: one column is
         // then that input's and the bidirectional's expected value at once
         cfg.shared_cols = true;
+        // one case in twelve has 61-67 extra one-bit inputs, permuted into the header with everything else: expected
+        // columns (with their X and Z cells) then also stand in columns 64 and up
+        if ch.chance(1, 12) {
+            cfg.wide_inputs = true;
+            cfg.omit_cols = false;
+            out.class("header>=65-columns");
+        }
         let sigs = gen_signals(&mut ch, &cfg);
         let readable: Vec<String> =
             sigs.iter().filter(|s| s.is_output() && is_ident(&s.name)).map(|s| s.name.clone()).collect();
